@@ -38,6 +38,16 @@ var Ctl Controller
 
 func managed() bool { return Ctl != nil && Ctl.Managed() }
 
+func always() bool { return true }
+
+// Point is a scheduling point for a visible operation that is not a lock operation (the harness calls it
+// before each write to the shared output). No-op outside the scheduler.
+func Point(obj any, what string) {
+	if managed() {
+		Ctl.Acquire(obj, what, always)
+	}
+}
+
 // Mutex mirrors sync.Mutex.
 type Mutex struct {
 	real sync.Mutex
@@ -103,6 +113,8 @@ func (m *Mutex) Unlock() {
 			panic("vsync: unlock of unlocked mutex")
 		}
 		m.held = false
+		// (a release is not a scheduling point of its own: the next visible step of the thread - its
+		// next lock acquisition or its next write to the shared output, see Point - is one)
 		return
 	}
 	m.real.Unlock()
